@@ -216,7 +216,7 @@ def run(ctx):
     if len(main) != 1:
         raise AnalysisError("C14.TERM", gt.qualname, "lexer main loop not found")
     # each iteration consumes one character (from charstack or the stream) or ends; a push-back is followed by break
-    consume = [n for n in gcfg.live_nodes() if n.kind == "stmt" and isinstance(n.ast, ast.Assign) and src(n.ast.targets[0]) == "nextchar"
+    consume = [n for n in gcfg.live_nodes() if n.kind == "stmt" and isinstance(n.ast, ast.Assign)
                and src(n.ast.value) in ("self.charstack.pop(0)", "self.instream.read(1)")]
     s0 = [s for s, lab in main[0].succ if lab == "true"]
     path = None
